@@ -166,16 +166,32 @@ func body(s *simrt.Sim, tier string) {
 			}
 		})
 	}
+	// every Close call, also one overlapping another, returns only when nothing more will be delivered:
+	// the first return sets closeReturn, and any receive after that is a violation
+	doClose := func() {
+		if closeInvoke.Load() == 0 {
+			closeInvoke.Store(s.Stamp())
+		}
+		s.Logf("close")
+		b.Close()
+		closeReturn.CompareAndSwap(0, s.Stamp())
+		s.Yield("close.ret")
+	}
 	if closeRace {
 		workNames = append(workNames, "closer")
+		at := sleeps[s.Choose(len(sleeps), "closeAt")]
 		s.Go("closer", func() {
-			s.Sleep(sleeps[s.Choose(len(sleeps), "closeAt")])
-			closeInvoke.Store(s.Stamp())
-			s.Logf("close")
-			b.Close()
-			s.Yield("close.ret")
-			closeReturn.Store(s.Stamp())
+			s.Sleep(at)
+			doClose()
 		})
+		if s.Choose(2, "closer2") == 0 {
+			workNames = append(workNames, "closer2")
+			at2 := sleeps[s.Choose(len(sleeps), "closeAt2")]
+			s.Go("closer2", func() {
+				s.Sleep(at2)
+				doClose()
+			})
+		}
 	}
 	if !s.Join(100*time.Millisecond, workNames...) {
 		resume.Store(true)
@@ -242,14 +258,9 @@ func body(s *simrt.Sim, tier string) {
 		return
 	}
 	if !closeRace {
-		s.Go("closer", func() {
-			closeInvoke.Store(s.Stamp())
-			s.Logf("close")
-			b.Close()
-			s.Yield("close.ret")
-			closeReturn.Store(s.Stamp())
-		})
-		if !s.Join(20*time.Second, "closer") {
+		s.Go("closer", doClose)
+		s.Go("closer2", doClose)
+		if !s.Join(20*time.Second, "closer", "closer2") {
 			s.Fail("close-deadlock", "Close did not return although no subscriber is stalled any more\n"+s.Dump())
 			return
 		}
